@@ -210,3 +210,41 @@ PROPS['C15'] = dict(
              'libif, ifmon and rsocks are the verif-tag fakes; timers are the synctest virtual clock (real timer drift, the 17 s re-poll of hackAbsoluteSleep '
              'and the run time of the hook script are not exhibited)'],
     timeout={'quick': 900, 'thorough': 14000})
+PROPS['C20'] = dict(
+    tests=['TestC20'],
+    # checks of coq/spec/SpecFs.v (proved to accept every reachable state of the model: C20_checks_accept_reachable)
+    # evaluated on samples / listings of the real directory
+    monitor_tags={2010, 2011, 2012},
+    panic_is_violation=set(),
+    rule='the real psa-dhcpc binary (CGO_ENABLED=0, built from the tree under test) started with -syshook in a chroot on the real kernel. '
+         '(i)+(ii) 204 / 1 360 runs under `strace -f` over 12 / 80 combinations of name-server list (1-400 servers, with/without domain) and initial directory '
+         '(empty; old resolv.conf 0644; old resolv.conf 0600 + unrelated file + stale resolvconf-123.tmp; look-alike names): one plain run, one run with '
+         'an error (EIO/ENOSPC/EACCES/EDQUOT/EROFS) injected into each of openat/write/close/fchmodat/renameat, one with SIGKILL delivered on entry of each of '
+         'these calls, each failing step combined with a failing unlinkat, and SIGKILL before the unlinkat; compared with the model: the sequence of file-system '
+         'calls on etc/ with their flags/modes/paths (2001), exit kind and the complete directory afterwards with contents and modes (2002); the directory is also judged without the model run by dir_ok / quiet_ok (2011). '
+         '(iii) 24 / 150 scenarios of 2-8 concurrent writer processes x 6 / 12 rounds with different name-server lists (every fifth with 60-120 KB buffers; every third with '
+         'every other run of a writer SIGKILLed at 40-105 % of the duration of its previous run) while two reader goroutines sample etc/resolv.conf in a tight loop (content+mode through one descriptor; content only): '
+         'every distinct sample and the final listing are judged by sample_ok/content_ok/dir_ok/quiet_ok (2010/2012/2011). '
+         'Non-trivial = every case; distinct by full case line (temp names are random, so traced cases are distinct by construction).',
+    trusted=['POSIX / Linux kernel (ASSUMED, not proved): rename(2) within one directory replaces the target atomically and changes nothing when it fails; '
+             'open with O_CREAT|O_EXCL fails if the name exists; a failing call has no effect (a failing or interrupted write may leave a prefix); steps of different '
+             'processes are atomic with respect to each other; SIGKILL lets no further call of the victim happen; the content of an inode that is no longer '
+             'written does not change (a reader holding resolv.conf open reads one consistent file)',
+             'lib/resolvconf/resolvconf.go update() is modelled by hand in coq/model/Fs.v (name-addressed files; the descriptor-addressed write agrees with it '
+             'because no other actor touches a live temp name: C20_tmp_names_distinct); program order, the conditional deferred Remove, the paths and the mode '
+             '0644 are read from the source by tools/gofacts; the creation mode 0600 and O_RDWR|O_CREAT|O_EXCL belong to the Go standard library and are checked by the strace cases',
+             'strace 6.1 fault injection (inject=<call>:error=..:when=n, :signal=KILL) stands for real I/O errors and crashes: an injected error suppresses the call, '
+             'SIGKILL on entry aborts it; kills in the MIDDLE of a write (prefix left) are covered by the theorems and by the random-kill scenarios only as far as '
+             'the scheduler produces them; EEXIST retries of TempFile are in the model but cannot be provoked',
+             'the temp name of a traced run is read from the trace and given to the model as the oracle choice'],
+    assumptions=['only psa-dhcpc writers (and readers) touch etc/resolv.conf and etc/resolvconf-*.tmp while an update runs',
+                 'temp file and target are in one directory of one file system (gofacts: gf_resolv_same_dir)'],
+    timeout={'quick': 600, 'thorough': 3600},
+)
+
+PROPS['C15']['direct_files'] = []
+PROPS['C15']['case_files'] = ['c15']
+# C16: message formats (templates) + timing of retransmissions observed on the client scripts of C15
+PROPS['C16']['tests'] = PROPS['C16']['tests'] + ['TestC15']
+PROPS['C16']['direct_files'] = ['c16timing']
+PROPS['C16']['case_files'] = [n for n in ('c16', 'c16templates', 'c16tmpl')]
